@@ -4,8 +4,19 @@ package simapp
 
 import (
 	"encoding/json"
+	"fmt"
+	"net/http"
+	"net/http/httptest"
 	"reflect"
+	"strings"
+	"sync"
 	"unsafe"
+
+	amino "github.com/tendermint/go-amino"
+	ctypes "github.com/tendermint/tendermint/rpc/core/types"
+	rpcserver "github.com/tendermint/tendermint/rpc/lib/server"
+	rpctypes "github.com/tendermint/tendermint/rpc/lib/types"
+	tmtypes "github.com/tendermint/tendermint/types"
 
 	abci "github.com/tendermint/tendermint/abci/types"
 	tmcfg "github.com/tendermint/tendermint/config"
@@ -27,6 +38,41 @@ import (
 )
 
 const ChainID = "verif-chain"
+
+// TxIndex stands in for the node's transaction index, which the ante handler asks (over Tendermint's JSON-RPC route
+// "tx", served here by Tendermint's own RPC server code) whether a transaction has been included before. The driver
+// adds a block's transactions, with their results, when the block is committed.
+type TxIndex struct {
+	mu  sync.Mutex
+	txs map[string]*ctypes.ResultTx
+	srv *httptest.Server
+}
+
+func NewTxIndex() *TxIndex {
+	ix := &TxIndex{txs: map[string]*ctypes.ResultTx{}}
+	cdc := amino.NewCodec()
+	ctypes.RegisterAmino(cdc)
+	mux := http.NewServeMux()
+	rpcserver.RegisterRPCFuncs(mux, map[string]*rpcserver.RPCFunc{"tx": rpcserver.NewRPCFunc(ix.tx, "hash,prove")}, cdc, log.NewNopLogger())
+	ix.srv = httptest.NewServer(mux)
+	return ix
+}
+func (ix *TxIndex) tx(_ *rpctypes.Context, hash []byte, prove bool) (*ctypes.ResultTx, error) {
+	ix.mu.Lock()
+	defer ix.mu.Unlock()
+	if r, ok := ix.txs[string(hash)]; ok {
+		return r, nil
+	}
+	return nil, fmt.Errorf("Tx (%X) not found", hash)
+}
+func (ix *TxIndex) Addr() string { return "tcp://" + strings.TrimPrefix(ix.srv.URL, "http://") }
+func (ix *TxIndex) Add(txBz []byte, height int64, res abci.ResponseDeliverTx) {
+	ix.mu.Lock()
+	defer ix.mu.Unlock()
+	h := tmtypes.Tx(txBz).Hash()
+	ix.txs[string(h)] = &ctypes.ResultTx{Hash: h, Height: height, Index: 0, TxResult: res, Tx: txBz}
+}
+func (ix *TxIndex) Close() { ix.srv.CloseClientConnections(); ix.srv.Close() }
 
 type Genesis struct {
 	Auth auth.GenesisState
